@@ -40,6 +40,10 @@ module Little :
 
 val add : nat -> nat -> nat
 
+val mul : nat -> nat -> nat
+
+val sub : nat -> nat -> nat
+
 type positive =
 | XI of positive
 | XO of positive
@@ -73,11 +77,15 @@ module Pos :
 
   val add_carry : positive -> positive -> positive
 
+  val pred_double : positive -> positive
+
   val mul : positive -> positive -> positive
 
   val compare_cont : comparison -> positive -> positive -> comparison
 
   val compare : positive -> positive -> comparison
+
+  val eqb : positive -> positive -> bool
 
   val iter_op : ('a1 -> 'a1 -> 'a1) -> positive -> 'a1 -> 'a1
 
@@ -135,13 +143,37 @@ val skipn : nat -> 'a1 list -> 'a1 list
 
 module Z :
  sig
+  val double : z -> z
+
+  val succ_double : z -> z
+
+  val pred_double : z -> z
+
+  val pos_sub : positive -> positive -> z
+
+  val add : z -> z -> z
+
+  val opp : z -> z
+
+  val sub : z -> z -> z
+
+  val mul : z -> z -> z
+
   val compare : z -> z -> comparison
+
+  val leb : z -> z -> bool
+
+  val eqb : z -> z -> bool
 
   val max : z -> z -> z
 
   val min : z -> z -> z
 
   val abs : z -> z
+
+  val to_nat : z -> nat
+
+  val of_nat : nat -> z
  end
 
 val list_ascii_of_string : char list -> char list
@@ -240,3 +272,92 @@ val lead_of : z list -> z -> z
 val idx_text : z -> str
 
 val f_idx_text : z -> str
+
+val is_blank : char -> bool
+
+val plain_lines : str -> str -> str list
+
+val rstrip : str -> str
+
+val split_cont : str -> str * bool
+
+val cont_start : str -> str
+
+val logical : bool -> str list -> str
+
+type binop =
+| OAdd
+| OSub
+| OMul
+| ODiv
+| OPow
+
+type mmop =
+| MMax
+| MMin
+
+val is_mul : binop -> bool
+
+type sexpr =
+| SVar of nat * z
+| SInt of z
+| SDec of z * nat
+| SNeg of sexpr
+| SPar of sexpr
+| SBin of binop * sexpr * sexpr
+| SAbs of sexpr
+| SExp of sexpr
+| SLog of sexpr
+| SMM of mmop * sexpr * sexpr
+
+val s_regroup : sexpr -> sexpr
+
+type tok =
+| TInt of z
+| TDecT of z * nat
+| TId of str
+| TPlus
+| TMinus
+| TStar
+| TSlash
+| TPow
+| TLp
+| TRp
+| TComma
+| TEq
+
+val digit_val : char -> z
+
+val digits_val : str -> z
+
+val lex : nat -> str -> tok list option
+
+type pres = (sexpr * tok list) option
+
+val p_term : tok list -> pres
+
+val p_primary : nat -> tok list -> pres
+
+val p_mult : nat -> tok list -> pres
+
+val p_ext_mult : nat -> tok list -> pres
+
+val p_mul_tail : nat -> sexpr -> tok list -> pres
+
+val p_add_operand : nat -> tok list -> pres
+
+val p_ext_add : nat -> tok list -> pres
+
+val p_add_tail : nat -> sexpr -> tok list -> pres
+
+val p_level2 : nat -> tok list -> pres
+
+val parse_tokens : tok list -> (nat * sexpr) option
+
+val parse_stmt : str -> (nat * sexpr) option
+
+val stmt_of_block : str -> str
+
+val sexpr_eqb : sexpr -> sexpr -> bool
+
+val block_matches : str -> nat -> sexpr -> bool
